@@ -180,6 +180,9 @@ def configs(tier):
     for cs in ([["DE", "UE"]] if tier == "quick" else [["DE", "UE"], ["DE", "DE"], ["SD", "TE"]]):
         out.append({"mode": "roundtrip", "classes": cs})
     out.append({"mode": "bigchain"})
+    # the concrete replays first: they are cheap, and a change that makes the abstract stream configurations
+    # inconclusive (byte-level manipulation of the stream) is still confronted with real pickling
+    out.sort(key=lambda c: 0 if c["mode"] in ("kf_tuple", "kf_byvalue", "valuehash", "roundtrip", "bigchain") else 1)
     return out
 
 
